@@ -367,7 +367,16 @@ Proof.
 Qed.
 
 Lemma run_undo_like_ev : forall w steps hard msg, EV false w (fst (run_undo_like w steps hard msg)).
-Proof. intros. unfold run_undo_like. open_then. Qed.
+Proof.
+  intros. unfold run_undo_like. open_manual op0 Hop Hev0.
+  destruct (log_extmods_first op0) as [op|] eqn:Hl; [|exact Hev0].
+  assert (Hev : EV false w (op_world op)).
+  { unfold log_extmods_first in Hl. destruct (Nat.eqb _ _); [now inversion Hl; subst|].
+    destruct (log_external_mods _ _) as [[w' s']|] eqn:L; [|discriminate].
+    inversion Hl; subst. cbn [op_world].
+    eapply EV_trans; [exact Hev0|eapply log_external_mods_ev; exact L]. }
+  leaf Hev.
+Qed.
 
 Lemma run_undo_ev : forall w n hard, EV false w (fst (run_undo w n hard)).
 Proof. intros. unfold run_undo. destruct (_ <? _)%Z; [apply EV_refl|apply run_undo_like_ev]. Qed.
